@@ -173,11 +173,23 @@ pub fn store<'a>(path: &str, off: usize, data: &'a [u8], mmap: bool) -> &'a [u8]
         };
         match h.io(&ev) {
             IoVerdict::Torn(n) => return &data[..(n as usize).min(data.len())],
-            IoVerdict::FailBefore(_) => return &data[..0],
+            IoVerdict::FailBefore(errno) => {
+                STORE_ERROR.with(|c| c.set(Some(errno)));
+                return &data[..0];
+            }
             IoVerdict::Proceed => {}
         }
     }
     data
+}
+
+thread_local! {
+    static STORE_ERROR: std::cell::Cell<Option<i32>> = const { std::cell::Cell::new(None) };
+}
+
+/// Error injected by the hook for the store that `store()` just announced, if any.
+pub fn take_store_error() -> Option<std::io::Error> {
+    STORE_ERROR.with(|c| c.take()).map(std::io::Error::from_raw_os_error)
 }
 
 pub fn after_store() {
